@@ -5,37 +5,10 @@
 -/
 import CRProps.C06
 import CRProps.C07
+import CRModel.AssignGeo
 
 namespace CR.Assign
 open CR.Geom
-
-/-- The geometry of a case: the two primitive predicates (`within ring p` for `dwithin(polygon, point, 1e-15)`,
-    `meets ring s` for `polygon.intersects(s.shapely_object)`), and per obstacle its kind, horizon, centre position and
-    occupancy shape (a primitive or a ShapeGroup of primitives) at every time step. -/
-structure Geo where
-  within : List Pt → Pt → Bool
-  meets : List Pt → Prim → Bool
-  kind : Id → Kind
-  t0 : Id → T
-  len : Id → Nat
-  pos : Id → T → Pt
-  occ : Id → T → Shape
-
-/-- `set(self.lanelet_network.find_lanelet_by_position([position])[0])` -/
-def cenOf (G : Geo) (n : Index.Net) (o : Id) (t : T) : List Id :=
-  match Index.findByPosition G.within n [G.pos o t] with
-  | .ok [ids] => ids
-  | _ => []
-
-/-- `set(self.lanelet_network.find_lanelet_by_shape(shape))` -/
-def shpOf (G : Geo) (n : Index.Net) (o : Id) (t : T) : List Id :=
-  match Index.findByShape G.meets n (G.occ o t) with
-  | .ok ids => ids
-  | .error _ => []
-
-/-- the environment of a history on network `n`: the lookups ARE the index queries -/
-def envOf (G : Geo) (n : Index.Net) : Env :=
-  { lanelets := n.lanelets.map (·.id), kind := G.kind, t0 := G.t0, len := G.len, cen := cenOf G n, shp := shpOf G n }
 
 /-- lanelet `l` of the network contains the centre of obstacle `o` at time step `t` -/
 def Within (G : Geo) (n : Index.Net) (o : Id) (t : T) (l : Id) : Prop :=
@@ -87,11 +60,15 @@ theorem mem_shpOf {G : Geo} {n : Index.Net} (hs : Index.Sync n) (o : Id) (t : T)
 
 /-- on a synchronised index the instantiated lookups answer with lanelets of the network, each once -/
 theorem wf_envOf (G : Geo) {n : Index.Net} (hs : Index.Sync n) : WfEnv (envOf G n) := by
-  refine ⟨?_, ?_⟩
+  refine ⟨?_, ?_, ?_, ?_⟩
   · intro o t l hl
     obtain ⟨L, h1, h2, _⟩ := (mem_shpOf hs o t l).mp hl
     exact List.mem_map.mpr ⟨L, h1, h2⟩
   · intro o t; exact (shpOf_spec hs o t).1
+  · intro o t l hl
+    obtain ⟨L, h1, h2, _⟩ := (mem_cenOf hs o t l).mp hl
+    exact List.mem_map.mpr ⟨L, h1, h2⟩
+  · intro o t; exact nodup_cenOf hs o t
 
 /-! ### the lookups depend on the network only through its (id, vertex ring) list -/
 
